@@ -112,9 +112,70 @@ func C19(run *ev.Run, tier string) map[string]interface{} {
 			Deadline:  dl,
 		}}
 	})
+	dupRuns, dupRejected := c19RepeatedKeys(run)
 	cov := total.Coverage()
 	cov["per_system"] = per
+	cov["repeated_key_batches"] = fmt.Sprintf("%d runs (sizes 13, 16, 20, 25 over 2 and 3 tables, 6 fresh clients each, both SDK clients): a key written several times in one batch ends as its last request says, or the batch is rejected as a whole; rejected: %d", dupRuns, dupRejected)
 	cov["alphabet"] = fmt.Sprintf("every BatchWriteItem of 1..%d requests over %d (table,key) slots of two tables x {put v1, put v2, delete} without duplicate keys, batches of 25 and 26 puts, every BatchGetItem over a non-empty subset of the slots (present and absent keys), single Put/Del", maxBatch, len(slots))
 	cov["oracle"] = "reference model applies the batch item by item (the twin of the decomposition): equal full observation afterwards; BatchGet Responses = multiset of the individual GetItem results, absent keys nowhere, UnprocessedKeys empty"
 	return cov
+}
+
+// c19RepeatedKeys: batches that name one key several times. DynamoDB itself refuses them; an
+// implementation that accepts them must apply each table's requests in list order (the
+// decomposition is only defined that way), one that refuses them must change nothing. Sizes above
+// 12 on purpose: an implementation that reorders requests with an unstable sort shows only there.
+func c19RepeatedKeys(run *ev.Run) (runs, rejected int) {
+	cfg := drv.TableCfg{Hash: "h", HashT: "S", Billing: "PAY_PER_REQUEST"}
+	tables := []string{"tbc", "tbb", "tba"}
+	for _, d := range Drivers {
+		for _, n := range []int{13, 16, 20, 25} {
+			for _, nt := range []int{2, 3} {
+				for round := 0; round < 6; round++ {
+					impl := d.New()
+					want := map[string]map[string]val.Item{}
+					var batch []drv.BWReq
+					for i := 0; i < n; i++ {
+						t := tables[i%nt]
+						k := fmt.Sprintf("k%d", (i/nt)%2+1)
+						if want[t] == nil {
+							want[t] = map[string]val.Item{}
+							impl.Do(drv.Op{K: drv.KCreate, Table: t, Cfg: &cfg})
+						}
+						if (i/nt)%3 == 2 {
+							batch = append(batch, drv.BWReq{Table: t, Del: hKey(k)})
+							delete(want[t], k)
+						} else {
+							it := with(hKey(k), "a", val.N(fmt.Sprint(i)))
+							batch = append(batch, drv.BWReq{Table: t, Put: it})
+							want[t][k] = it
+						}
+					}
+					r := impl.Do(drv.Op{K: drv.KBatchWrite, Batch: batch})
+					runs++
+					refused := r.Err == drv.EValidation || r.Err == drv.EInvalidPar
+					if refused {
+						rejected++
+					}
+					if r.Err != "" && !refused {
+						run.Report(fmt.Sprintf("C19|repeated-keys|BatchWriteItem|class|%s@%s", r.Err, d.Name), fmt.Sprintf("batch of %d requests over %d tables with repeated keys: %s %s", n, nt, r.Err, r.Msg), map[string]interface{}{"driver": d.Name, "batch": batch})
+						continue
+					}
+					for t, ks := range want {
+						for _, k := range []string{"k1", "k2"} {
+							g := impl.Do(drv.Op{K: drv.KGet, Table: t, Key: hKey(k)})
+							exp, ok := ks[k]
+							if refused {
+								exp, ok = nil, false
+							}
+							if ok != (len(g.Item) > 0) || ok && !val.ItemEqual(g.Item, exp) {
+								run.Report(fmt.Sprintf("C19|repeated-keys|state-differs-from-list-order@%s", d.Name), fmt.Sprintf("batch of %d requests over %d tables: %s/%s is %s, the requests in list order leave %s", n, nt, t, k, g.Item.CanonText(), exp.CanonText()), map[string]interface{}{"driver": d.Name, "batch": batch, "table": t, "key": k})
+							}
+						}
+					}
+				}
+			}
+		}
+	}
+	return runs, rejected
 }
